@@ -655,6 +655,7 @@ def _track_task(spec, repo, seed, n, forced=None):
     rng = random.Random(seed)
     out = new_out()
     out['tracks'] = []
+    out['plines'], out['pimpl'], out['pmeta'] = [], [], []
     cnt = out['counts']
     done = tries = 0
     etol = 1e-6
@@ -713,11 +714,23 @@ def _track_task(spec, repo, seed, n, forced=None):
             dtab[(float(l0[0]), float(l0[1]))] = dist(line[0])
             dtab[(float(l1[0]), float(l1[1]))] = dist(line[1])
             ok = True
+            nprim = len(out['tracks']) < 12       # the two line primitives against their exact models, on the first lines
             for c in G.cols:
-                lir = bool(line_intersects_rectangle(c.bounding_box, line))
+                bbox = c.bounding_box
+                lir = bool(line_intersects_rectangle(bbox, line))
                 pts = line_polygon_intersections(c.polygon, line) if lir else []
                 for p in pts: dtab[(float(p[0]), float(p[1]))] = dist(p)
                 pc.append(('1' if lir else '0') + ';' + ' '.join(ptstr(p) for p in pts) + ';' + q2(max(c.side_lengths)))
+                if nprim:
+                    out['plines'].append('lir\t%s %s\t%s %s' % (ptstr(bbox[0]), ptstr(bbox[1]), ptstr(l0), ptstr(l1)))
+                    out['pimpl'].append('1' if lir else '0')
+                    out['pmeta'].append(('line_intersects_rectangle', [list(map(float, bbox[0])), list(map(float, bbox[1]))], inp['line']))
+                    if lir:
+                        out['plines'].append('lpi\t%s %s\t%s' % (ptstr(l0), ptstr(l1), ' '.join(ptstr(p) for p in c.polygon)))
+                        out['pimpl'].append({'pts': [[float(p[0]), float(p[1])] for p in pts],
+                                             'poly': [[float(p[0]), float(p[1])] for p in c.polygon],
+                                             'ambiguous': lpi_ambiguous(c.polygon, line)})
+                        out['pmeta'].append(('line_polygon_intersections', c.name, inp['line']))
             out['tracks'].append({
                 'line': ptstr(l0) + ' ' + ptstr(l1), 'percol': '|'.join(pc),
                 'dtab': '|'.join(ptstr(k) + ' ' + q2(v) for k, v in dtab.items()),
@@ -727,6 +740,41 @@ def _track_task(spec, repo, seed, n, forced=None):
     out['wire'] = G.wire()
     out['ncols'] = G.n
     return out
+
+
+def lpi_ambiguous(polygon, line):
+    """True when, for some edge, a parameter of the 2 x 2 solution lies within 1e-7 of an acceptance
+    threshold (-1e-9 or 1 + 1e-9) of line_polygon_intersections: the doubles and the exact model may then
+    decide differently (line through a vertex / end point on an edge line)"""
+    n = len(polygon)
+    l1, l2 = line[0], line[1]
+    for i in range(n):
+        p1, p2 = polygon[i], polygon[(i + 1) % n]
+        dp = p2 - p1
+        A = np.column_stack((dp, l1 - l2)); b = l1 - p1
+        try: xi = np.linalg.solve(A, b)
+        except np.linalg.LinAlgError: continue
+        for v in xi:
+            if abs(v + 1e-9) < 1e-7 or abs(v - 1 - 1e-9) < 1e-7: return True
+    return False
+
+
+def lpi_merge(hits, l0, polygon):
+    """The stated abstraction of the line model, applied to the model's hits (edge order): drop identical
+    points, merge points whose distance from line[0] / longest side rounds to the same 3 decimals (first
+    one kept), sort by that value.  Returns (points, ambiguous) -- ambiguous when a value is within 1e-6 of a
+    rounding boundary."""
+    n = len(polygon)
+    size = max(float(np.linalg.norm(polygon[(i + 1) % n] - polygon[i])) for i in range(n))
+    ind = {}
+    for k, c in enumerate(hits): ind[(float(c[0]), float(c[1]))] = k
+    crossings = [np.array(c) for c in ind]
+    d = np.array([np.linalg.norm(c - l0) for c in crossings])
+    if len(d) > 0 and size > 0: d = d / size
+    amb = any(abs((v * 1000.0) % 1.0 - 0.5) < 1e-6 for v in d)
+    d = d.round(decimals=3)
+    du, iu = np.unique(d, return_index=True)
+    return [crossings[iu[i]] for i in np.argsort(du)], amb
 
 
 def canon_pt(p):
@@ -765,6 +813,15 @@ def _prim_task(spec, repo, seed, n):
         for c in t.child: walk(c)
     walk(G.q)
     cnt = {'discarded_too_close_to_edge': 0}
+    # hypothesis of in_polygon_convex / the chord theorems, measured once per geometry (exact): every three
+    # vertices of the column in list order make a left turn
+    from itertools import combinations
+    nconv = 0
+    for P in G.polyq:
+        if len(P) >= 3 and all((b[0] - a[0]) * (c[1] - a[1]) - (b[1] - a[1]) * (c[0] - a[0]) > 0 for a, b, c in combinations(P, 3)):
+            nconv += 1
+    cnt['columns'] = G.n
+    cnt['columns_strictly_convex_ccw'] = nconv
     for _ in range(n):
         pos, cls = gen_point(G, rng)
         if G.edge_clearance(pos) < 1.0:
